@@ -1057,7 +1057,14 @@ func checkLineReassembly(p *core.Prog, r *core.Result) {
 			nf := iff.Block().Succs[1-found]
 			isWriteAll := func(in ssa.Instruction) bool {
 				a, is := bufAppend(in)
-				return is && a == ssa.Value(cur)
+				if is && a == ssa.Value(cur) {
+					return true
+				}
+				// bytes.Cut returns the whole chunk as its first result when the separator is not found
+				if e, isE := a.(*ssa.Extract); is && isE && cut != nil && e.Tuple == ssa.Value(cut) && e.Index == 0 {
+					return true
+				}
+				return false
 			}
 			buffersAll := true
 			reached := false
